@@ -402,94 +402,97 @@ func genPatch(t *rapid.T, slots []refbundle.Slot) PatchSpec {
 	return p
 }
 
-func TestPropStructured(t *testing.T) {
-	prop.Rapid(t, func(t *rapid.T) Case {
-		c := Case{Asm: GenAsm(t, true), Truncate: -1, FlipOff: -1}
-		file, slots := refbundle.Assemble(&c.Asm)
-		switch rapid.IntRange(0, 13).Draw(t, "kind") {
-		case 0:
-			// honest
-		case 1:
-			c.Truncate = rapid.IntRange(0, len(file)).Draw(t, "trunc")
-		case 2:
-			c.FlipOff, c.FlipBit = rapid.IntRange(0, len(file)-1).Draw(t, "flipoff"), rapid.IntRange(0, 7).Draw(t, "flipbit")
-		case 3:
-			// structural defects on the section list
-			switch rapid.IntRange(0, 4).Draw(t, "sdefect") {
-			case 0: // responses not last
-				n := len(c.Asm.Sections)
-				if n >= 2 {
-					c.Asm.Sections[n-1], c.Asm.Sections[n-2] = c.Asm.Sections[n-2], c.Asm.Sections[n-1]
-				}
-			case 1: // duplicate a section name
-				i := rapid.IntRange(0, len(c.Asm.Sections)-1).Draw(t, "dupsec")
-				c.Asm.Sections = append(c.Asm.Sections[:i+1:i+1], c.Asm.Sections[i:]...)
-			case 2: // drop a section
-				i := rapid.IntRange(0, len(c.Asm.Sections)-1).Draw(t, "dropsec")
-				c.Asm.Sections = append(c.Asm.Sections[:i:i], c.Asm.Sections[i+1:]...)
-			case 3: // rename a known section to an unknown name (content stays)
-				i := rapid.IntRange(0, len(c.Asm.Sections)-1).Draw(t, "rensec")
-				c.Asm.Sections[i].Name = "renamed"
-			case 4: // index entry pointing at a response index that does not exist (offset 0,len 0)
-				if len(c.Asm.Index) > 0 {
-					c.Asm.Index[0].Resps = []int{99}
-				}
+func TestPropStructured(t *testing.T) { prop.Rapid(t, genPropStructured) }
+
+// TestConcStructured: batches of cases evaluated at the same time on separate goroutines (vh.Prop.Concurrent).
+func TestConcStructured(t *testing.T) { prop.Concurrent(t, genPropStructured, 8, 3) }
+
+func genPropStructured(t *rapid.T) Case {
+	c := Case{Asm: GenAsm(t, true), Truncate: -1, FlipOff: -1}
+	file, slots := refbundle.Assemble(&c.Asm)
+	switch rapid.IntRange(0, 13).Draw(t, "kind") {
+	case 0:
+		// honest
+	case 1:
+		c.Truncate = rapid.IntRange(0, len(file)).Draw(t, "trunc")
+	case 2:
+		c.FlipOff, c.FlipBit = rapid.IntRange(0, len(file)-1).Draw(t, "flipoff"), rapid.IntRange(0, 7).Draw(t, "flipbit")
+	case 3:
+		// structural defects on the section list
+		switch rapid.IntRange(0, 4).Draw(t, "sdefect") {
+		case 0: // responses not last
+			n := len(c.Asm.Sections)
+			if n >= 2 {
+				c.Asm.Sections[n-1], c.Asm.Sections[n-2] = c.Asm.Sections[n-2], c.Asm.Sections[n-1]
 			}
-		case 4:
-			// wrap-around onto a decoy response planted in an unknown section
-			if len(c.Asm.Resps) > 0 && len(c.Asm.Index) > 0 {
-				c.Asm.Wide = true
-				raw := refbundle.AsmSection{Name: "decoy", Kind: "raw", RawLen: 0, Decoy: 0}
-				n := len(c.Asm.Sections)
-				c.Asm.Sections = append(c.Asm.Sections[:n-1:n-1], raw, c.Asm.Sections[n-1])
-				c.Patches = []PatchSpec{{Slot: "index[0].off[0]", Mode: "wrap-decoy"}}
-			}
-		case 5:
-			c.Append = rapid.IntRange(1, 20).Draw(t, "append")
-		case 6, 7:
-			// "transfer": two fields of one family are edited TOGETHER so that their sum is unchanged
-			// modulo 2^64 (one grows by x, the other shrinks by x; x up to 2^64-1): every running total
-			// a careless reader computes without overflow checks still lands where the honest file has
-			// it, although one field alone now reaches far outside the file.
-			c.Asm.Wide = true
-			if rapid.Bool().Draw(t, "addraw") { // unknown sections to step over
-				n := len(c.Asm.Sections)
-				raws := []refbundle.AsmSection{{Name: "unknown-a", Kind: "raw", RawLen: rapid.IntRange(0, 40).Draw(t, "rawa"), Decoy: -1}, {Name: "unknown-b", Kind: "raw", RawLen: rapid.IntRange(0, 40).Draw(t, "rawb"), Decoy: -1}}
-				at := rapid.IntRange(0, n-1).Draw(t, "rawat")
-				c.Asm.Sections = append(c.Asm.Sections[:at:at], append(raws, c.Asm.Sections[at:]...)...)
-			}
-			_, wslots := refbundle.Assemble(&c.Asm)
-			fam := rapid.SampledFrom([]string{"sl", "sl", "idx", "resp"}).Draw(t, "family")
-			var pool []refbundle.Slot
-			for _, sl := range wslots {
-				n := sl.Name
-				switch {
-				case fam == "sl" && strings.HasPrefix(n, "sl[") && strings.HasSuffix(n, ".len"):
-					pool = append(pool, sl)
-				case fam == "idx" && (strings.Contains(n, ".off[") || strings.Contains(n, ".len[")):
-					pool = append(pool, sl)
-				case fam == "resp" && (strings.HasSuffix(n, ".hdrlen") || strings.HasSuffix(n, ".bodylen")):
-					pool = append(pool, sl)
-				}
-			}
-			if len(pool) >= 2 {
-				i := rapid.IntRange(0, len(pool)-2).Draw(t, "ta")
-				j := rapid.IntRange(i+1, len(pool)-1).Draw(t, "tb")
-				a, b := pool[i], pool[j]
-				if rapid.Bool().Draw(t, "swapab") {
-					a, b = b, a
-				}
-				x := rapid.SampledFrom([]uint64{^uint64(0) - a.Value, 1 << 63, 1 << 32, 1, -a.Value, uint64(len(file)), 1<<63 - a.Value}).Draw(t, "x")
-				c.Patches = []PatchSpec{{Slot: a.Name, Mode: "delta", Value: x}, {Slot: b.Name, Mode: "delta", Value: -x}}
-			}
-		default:
-			np := rapid.SampledFrom([]int{1, 1, 1, 2}).Draw(t, "npatch")
-			for i := 0; i < np; i++ {
-				c.Patches = append(c.Patches, genPatch(t, slots))
+		case 1: // duplicate a section name
+			i := rapid.IntRange(0, len(c.Asm.Sections)-1).Draw(t, "dupsec")
+			c.Asm.Sections = append(c.Asm.Sections[:i+1:i+1], c.Asm.Sections[i:]...)
+		case 2: // drop a section
+			i := rapid.IntRange(0, len(c.Asm.Sections)-1).Draw(t, "dropsec")
+			c.Asm.Sections = append(c.Asm.Sections[:i:i], c.Asm.Sections[i+1:]...)
+		case 3: // rename a known section to an unknown name (content stays)
+			i := rapid.IntRange(0, len(c.Asm.Sections)-1).Draw(t, "rensec")
+			c.Asm.Sections[i].Name = "renamed"
+		case 4: // index entry pointing at a response index that does not exist (offset 0,len 0)
+			if len(c.Asm.Index) > 0 {
+				c.Asm.Index[0].Resps = []int{99}
 			}
 		}
-		return c
-	})
+	case 4:
+		// wrap-around onto a decoy response planted in an unknown section
+		if len(c.Asm.Resps) > 0 && len(c.Asm.Index) > 0 {
+			c.Asm.Wide = true
+			raw := refbundle.AsmSection{Name: "decoy", Kind: "raw", RawLen: 0, Decoy: 0}
+			n := len(c.Asm.Sections)
+			c.Asm.Sections = append(c.Asm.Sections[:n-1:n-1], raw, c.Asm.Sections[n-1])
+			c.Patches = []PatchSpec{{Slot: "index[0].off[0]", Mode: "wrap-decoy"}}
+		}
+	case 5:
+		c.Append = rapid.IntRange(1, 20).Draw(t, "append")
+	case 6, 7:
+		// "transfer": two fields of one family are edited TOGETHER so that their sum is unchanged
+		// modulo 2^64 (one grows by x, the other shrinks by x; x up to 2^64-1): every running total
+		// a careless reader computes without overflow checks still lands where the honest file has
+		// it, although one field alone now reaches far outside the file.
+		c.Asm.Wide = true
+		if rapid.Bool().Draw(t, "addraw") { // unknown sections to step over
+			n := len(c.Asm.Sections)
+			raws := []refbundle.AsmSection{{Name: "unknown-a", Kind: "raw", RawLen: rapid.IntRange(0, 40).Draw(t, "rawa"), Decoy: -1}, {Name: "unknown-b", Kind: "raw", RawLen: rapid.IntRange(0, 40).Draw(t, "rawb"), Decoy: -1}}
+			at := rapid.IntRange(0, n-1).Draw(t, "rawat")
+			c.Asm.Sections = append(c.Asm.Sections[:at:at], append(raws, c.Asm.Sections[at:]...)...)
+		}
+		_, wslots := refbundle.Assemble(&c.Asm)
+		fam := rapid.SampledFrom([]string{"sl", "sl", "idx", "resp"}).Draw(t, "family")
+		var pool []refbundle.Slot
+		for _, sl := range wslots {
+			n := sl.Name
+			switch {
+			case fam == "sl" && strings.HasPrefix(n, "sl[") && strings.HasSuffix(n, ".len"):
+				pool = append(pool, sl)
+			case fam == "idx" && (strings.Contains(n, ".off[") || strings.Contains(n, ".len[")):
+				pool = append(pool, sl)
+			case fam == "resp" && (strings.HasSuffix(n, ".hdrlen") || strings.HasSuffix(n, ".bodylen")):
+				pool = append(pool, sl)
+			}
+		}
+		if len(pool) >= 2 {
+			i := rapid.IntRange(0, len(pool)-2).Draw(t, "ta")
+			j := rapid.IntRange(i+1, len(pool)-1).Draw(t, "tb")
+			a, b := pool[i], pool[j]
+			if rapid.Bool().Draw(t, "swapab") {
+				a, b = b, a
+			}
+			x := rapid.SampledFrom([]uint64{^uint64(0) - a.Value, 1 << 63, 1 << 32, 1, -a.Value, uint64(len(file)), 1<<63 - a.Value}).Draw(t, "x")
+			c.Patches = []PatchSpec{{Slot: a.Name, Mode: "delta", Value: x}, {Slot: b.Name, Mode: "delta", Value: -x}}
+		}
+	default:
+		np := rapid.SampledFrom([]int{1, 1, 1, 2}).Draw(t, "npatch")
+		for i := 0; i < np; i++ {
+			c.Patches = append(c.Patches, genPatch(t, slots))
+		}
+	}
+	return c
 }
 
 // ---- every truncation length and every single-bit flip of small bundles -------------------
@@ -743,19 +746,22 @@ var unknownProp = vh.Define("C05", "unknown-section", func(c UnknownCase, r *vh.
 	}
 })
 
-func TestPropUnknownSection(t *testing.T) {
-	unknownProp.Rapid(t, func(t *rapid.T) UnknownCase {
-		c := UnknownCase{Asm: GenAsm(t, false)}
-		n := rapid.IntRange(1, 3).Draw(t, "ninserts")
-		for i := 0; i < n; i++ {
-			c.Inserts = append(c.Inserts, struct {
-				Pos    int    `json:"pos"`
-				Name   string `json:"name"`
-				RawLen int    `json:"raw_len"`
-			}{rapid.IntRange(0, 8).Draw(t, "pos"), fmt.Sprintf("unknown-%d", i), rapid.SampledFrom([]int{0, 1, 23, 24, 300, 70000}).Draw(t, "rawlen")})
-		}
-		return c
-	})
+func TestPropUnknownSection(t *testing.T) { unknownProp.Rapid(t, genPropUnknownSection) }
+
+// TestConcUnknownSection: batches of cases evaluated at the same time on separate goroutines (vh.Prop.Concurrent).
+func TestConcUnknownSection(t *testing.T) { unknownProp.Concurrent(t, genPropUnknownSection, 8, 3) }
+
+func genPropUnknownSection(t *rapid.T) UnknownCase {
+	c := UnknownCase{Asm: GenAsm(t, false)}
+	n := rapid.IntRange(1, 3).Draw(t, "ninserts")
+	for i := 0; i < n; i++ {
+		c.Inserts = append(c.Inserts, struct {
+			Pos    int    `json:"pos"`
+			Name   string `json:"name"`
+			RawLen int    `json:"raw_len"`
+		}{rapid.IntRange(0, 8).Draw(t, "pos"), fmt.Sprintf("unknown-%d", i), rapid.SampledFrom([]int{0, 1, 23, 24, 300, 70000}).Draw(t, "rawlen")})
+	}
+	return c
 }
 
 // ---- arbitrary bytes ---------------------------------------------------------------------------
